@@ -214,6 +214,7 @@ def installed(sched_nums, fast_test=None, pickle_envs=True, quiet=True, quiet_lo
     if quiet and quiet_logging:
         logging.disable(logging.CRITICAL)
     elif not quiet_logging:
+        logging.disable(logging.NOTSET)
         # handlers attached by the harness see INFO records; nothing is printed
         logging.getLogger().setLevel(logging.INFO)
         if not logging.getLogger().handlers:
